@@ -13,6 +13,11 @@ RULE = ("batches of 1..4 (quick) / 1..5 (thorough) entries answered by every per
         "the implementation alone: a completed batch has exactly n entries, entry j's payload marker names id lo+j, counts match "
         "entries, a complete permuted reply is delivered in full; same for the HTTP client against a scripted server")
 
+ASSUMPTIONS = ASSUMPTIONS + [  # noqa: F405
+    "inside a batch reply both clients read an id by its numeric value (Id::try_parse_inner_as_number: 7, \"7\", \"007\" and \"+7\" all name "
+    "entry 7 - the model does the same); 'an id outside the batch' is therefore judged on that reading (oracle http-batch-entry-filled-with-foreign-answer)",
+]
+
 
 def run(ctx):
     ctx.engines = ["clihist (WS client)", "httpbatch (HTTP client)"]
